@@ -23,15 +23,15 @@ def jobs(tier):
     cfgs = [(1, 1, 0), (1, 2, 0), (1, 2, 1), (1, 3, 0)] if tier == "quick" else [(1, 2, 0), (1, 2, 1), (1, 3, 0), (1, 3, 1), (2, 2, 0), (2, 2, 1)]
     for nt, ntask, flags in cfgs:
         js.append(Job("C06.seq.T%d.K%d.F%d" % (nt, ntask, flags), "l0/thpool_seq.c", sources=SRC,
-                      extra_harness=["common/vf_defs.c"], defines={"NT": nt, "NTASK": ntask, "FLAGS": flags},
-                      unwind=ntask + 6, backend="cadical", export_local=False,
-                      unwindset={"vf_env": ntask + 4, "run_worker": 4, "main_step": ntask + 3, "vf_cond_wait": ntask + 4,
-                                 "vf_mutex_lock": ntask + 6, "thpool_thread": 4, "vf_task": ntask + 2, "m_thpool_add": ntask + 2,
-                                 "wait_pool": 3, "vf_thread_join": 4},
+                      extra_harness=["common/vf_defs.c"], defines=dict({"NT": nt, "NTASK": ntask, "FLAGS": flags}, **({"NESTED_WORKERS": None} if nt > 1 else {})),
+                      unwind=ntask + 3, backend="cadical", export_local=False, object_bits=12,
+                      unwindset={"thpool_thread.0": ntask + 3, "thpool_thread.1": ntask + 3, "vf_cond_wait.0": ntask + 3,
+                                 "vf_mutex_lock": 4, "m_queue_clear.0": ntask + 2, "m_list_clear.0": nt + 2,
+                                 "wait_pool.0": nt + 2, "add_threads.0": nt + 1},
                       fp=[(r"thr\[.*\]\.fn$", ["thpool_thread"]), (r"task->fn$|\.fn$", ["vf_task"]),
                           (r"\.dtor$", ["free"])],
                       symbolic=["every scheduling choice", "spurious wake-up", "wait_all", "which waiter a signal wakes"],
-                      bounds="threads=%d tasks=%d flags=%d" % (nt, ntask, flags), timeout=1500, mem_gb=16))
+                      bounds="threads=%d tasks=%d flags=%d" % (nt, ntask, flags), timeout=9000, mem_gb=24))
     return js
 
 
